@@ -95,27 +95,28 @@ func sanitize(s string) string {
 }
 
 type harnessEvidence struct {
-	Name        string         `json:"harness"`
-	Paths       int            `json:"paths"`
-	Ends        map[string]int `json:"path_ends"`
-	Queries     int            `json:"queries"`
-	Unsat       int            `json:"queries_unsat"`
-	Sat         int            `json:"queries_sat"`
-	Unknown     int            `json:"queries_unknown"`
-	SolverS     float64        `json:"solver_time_s"`
-	WallS       float64        `json:"wall_s"`
-	Steps       int            `json:"ssa_steps"`
-	Proved      map[string]int `json:"assertions_proved"`
-	Violated    map[string]int `json:"assertions_violated,omitempty"`
-	Covers      map[string]int `json:"covers"`
-	Inconclusive string        `json:"inconclusive,omitempty"`
-	XSolver     string         `json:"cross_solver,omitempty"`
+	Name         string         `json:"harness"`
+	Paths        int            `json:"paths"`
+	Ends         map[string]int `json:"path_ends"`
+	Queries      int            `json:"queries"`
+	Unsat        int            `json:"queries_unsat"`
+	Sat          int            `json:"queries_sat"`
+	Unknown      int            `json:"queries_unknown"`
+	SolverS      float64        `json:"solver_time_s"`
+	WallS        float64        `json:"wall_s"`
+	Steps        int            `json:"ssa_steps"`
+	Proved       map[string]int `json:"assertions_proved"`
+	Violated     map[string]int `json:"assertions_violated,omitempty"`
+	Covers       map[string]int `json:"covers"`
+	Inconclusive string         `json:"inconclusive,omitempty"`
+	XSolver      string         `json:"cross_solver,omitempty"`
 }
 
 func cmdCheck(id, tierName string) int {
 	t0 := time.Now()
 	tier := 0
 	if tierName == "thorough" {
+		raceWitnesses = true
 		tier = 1
 	} else if tierName != "quick" {
 		fmt.Fprintln(os.Stderr, "tier must be quick or thorough")
@@ -208,9 +209,9 @@ func cmdCheck(id, tierName string) int {
 	funcs := map[string]bool{}
 	var samples []interface{}
 	type pendingReplay struct {
-		file     string
-		hi       int
-		label    string
+		file      string
+		hi        int
+		label     string
 		violation bool
 	}
 	var replays []pendingReplay
